@@ -220,6 +220,7 @@ def Stmt.reset (s : Stmt) : Stmt := { s with args := List.replicate s.paramCount
 inductive ErrTag where
   | malform | flag | ftype | datelen | dtlen | timelen | lenenc | nodbname | unknowncmd
   | longtype | nostmt | wrongargs | nodb
+  | floatval   -- "Stmt invalid float parameter value": a FLOAT / DOUBLE parameter that is NaN or an infinity
   deriving Repr, DecidableEq
 
 /-- What the session writes in answer to one command packet. -/
@@ -327,6 +328,7 @@ def Temporal.lenErr : Temporal → ErrTag
 inductive TypeClass where
   | null
   | fixed (width : Nat)
+  | float (width : Nat)
   | temporal (t : Temporal)
   | str
   | unknown
@@ -338,8 +340,8 @@ def typeClass (tp : UInt8) : TypeClass :=
   else if tp == 2 || tp == 13 then .fixed 2
   else if tp == 9 || tp == 3 then .fixed 4
   else if tp == 8 then .fixed 8
-  else if tp == 4 then .fixed 4
-  else if tp == 5 then .fixed 8
+  else if tp == 4 then .float 4
+  else if tp == 5 then .float 8
   else if tp == 10 || tp == 14 then .temporal .date
   else if tp == 11 then .temporal .time
   else if tp == 7 || tp == 12 then .temporal .datetime
@@ -361,6 +363,19 @@ def bindFixed (paramValues : Bytes) (pos : Int) (w : Nat) : ValEnd :=
   else
     match goSlice paramValues pos (pos + w) with
     | .ok _ => .ok .other (pos + w)
+    | _ => .panic
+
+/-- `TypeFloat` / `TypeDouble`: `w` bytes at `pos`; a value whose exponent bits
+    are all set (NaN, ±Inf) is rejected (`math.IsNaN(f) || math.IsInf(f, 0)`;
+    widening a float32 to float64 keeps NaN and the infinities). -/
+def bindFloat (paramValues : Bytes) (pos : Int) (w : Nat) : ValEnd :=
+  if (paramValues.length : Int) < pos + w then .err .malform
+  else
+    match goSlice paramValues pos (pos + w) with
+    | .ok s =>
+      let bits := leNat s
+      if (w == 4 && (bits / 2 ^ 23) % 256 == 255) || (w == 8 && (bits / 2 ^ 52) % 2048 == 2047) then .err .floatval
+      else .ok .other (pos + w)
     | _ => .panic
 
 /-- The cases `TypeDate/NewDate`, `TypeDuration`, `TypeTimestamp/Datetime`: a
@@ -397,6 +412,7 @@ def bindValue (v : Variant) (tc : TypeClass) (paramValues : Bytes) (pos : Int) :
   match tc with
   | .null => .ok .none pos
   | .fixed w => bindFixed paramValues pos w
+  | .float w => bindFloat paramValues pos w
   | .temporal t => bindTemporal v t paramValues pos
   | .str => bindStr paramValues pos
   | .unknown => .err .ftype
